@@ -15,6 +15,13 @@
 #![allow(clippy::all, dead_code)]
 
 use super::*;
+// explicit imports: do not rely on what the parent module happens to import
+#[allow(unused_imports)]
+use std::path::PathBuf;
+#[allow(unused_imports)]
+use tokio::time::Instant;
+#[allow(unused_imports)]
+use tokio::sync::mpsc;
 use ntp_proto::SourceConfig as PSourceConfig;
 use serde_json::{Value, json};
 use std::sync::{Arc, Mutex};
